@@ -19,6 +19,13 @@ EXTENDS Naturals, Sequences, TLC, Json, IOUtils
 Reps == <<"neg", "zero", "one", "pos", "big", "huge", "maxint", "float", "negfloat", "emptystr", "str", "numstr", "null", "emptyarr", "arr", "nested",
           "emptydict", "dict", "func", "native", "computed", "badcomputed">>
 
+\* cyclic values (a container that contains itself, a dict that is its own prototype, two dicts that are each other's prototype).
+\* Two representatives of the same shape that are DISTINCT objects: comparing them walks both cycles.  These classes go into a
+\* product of their own (CycCases): every template, every placement of at least one cyclic value, partners from a short list.
+CycReps == <<"cycarr", "cycarr2", "cycdict", "cycdict2", "protocyc", "protoloop">>
+Partners2 == <<"zero", "pos", "str", "null", "arr", "dict", "func">>
+Partners3 == <<"zero", "pos", "arr">>
+
 \* templates: @1 @2 @3 are the holes
 T1 == <<"-@1", "+@1", "!@1", "@1", "&@1", "@1.a", "@1.len()", "@1.sum()", "@1.kh()", "@1.kl()", "@1.shuffle()", "@1.rand()", "@1.pop()", "@1.shift()",
         "@1.keys()", "@1.values()", "@1.items()", "@1.compute()", "@1()", "@1[0]", "@1[-1]", "@1['a']", "@1[:]", "@1.a = 1; @1", "@1[0] = 1; @1",
@@ -43,13 +50,23 @@ Assign3 == [k \in 1..(N*N*N) |-> <<Reps[((k-1) \div (N*N)) + 1], Reps[(((k-1) \d
 
 Cases(ts, as) == [k \in 1..(Len(ts) * Len(as)) |-> [t |-> ts[((k-1) \div Len(as)) + 1], a |-> as[((k-1) % Len(as)) + 1]]]
 
+IsCyc(r) == \E i \in 1..Len(CycReps) : CycReps[i] = r
+Pairs(pool) == [k \in 1..(Len(pool) * Len(pool)) |-> <<pool[((k-1) \div Len(pool)) + 1], pool[((k-1) % Len(pool)) + 1]>>]
+Triples(pool) == LET M == Len(pool) IN [k \in 1..(M*M*M) |-> <<pool[((k-1) \div (M*M)) + 1], pool[(((k-1) \div M) % M) + 1], pool[((k-1) % M) + 1]>>]
+HasCyc(a) == \E i \in 1..Len(a) : IsCyc(a[i])
+AssignC1 == [i \in 1..Len(CycReps) |-> <<CycReps[i]>>]
+AssignC2 == SelectSeq(Pairs(CycReps \o Partners2), HasCyc)
+AssignC3 == SelectSeq(Triples(CycReps \o Partners3), HasCyc)
+CycCases == Cases(T1, AssignC1) \o Cases(T2, AssignC2) \o Cases(T3, AssignC3)
+
 VARIABLE done
 Init == done = FALSE
 Write == /\ ~done
-         /\ JsonSerialize(IOEnv.HEADER, [reps |-> Reps, contexts |-> Contexts, templates |-> Len(T1) + Len(T2) + Len(T3)])
+         /\ JsonSerialize(IOEnv.HEADER, [reps |-> Reps \o CycReps, contexts |-> Contexts, templates |-> Len(T1) + Len(T2) + Len(T3)])
          /\ ndJsonSerialize(IOEnv.OUT1, Cases(T1, Assign1))
          /\ ndJsonSerialize(IOEnv.OUT2, Cases(T2, Assign2))
          /\ ndJsonSerialize(IOEnv.OUT3, Cases(T3, Assign3))
+         /\ ndJsonSerialize(IOEnv.OUT4, CycCases)
          /\ done' = TRUE
 Next == Write
 Spec == Init /\ [][Next]_done
